@@ -1058,8 +1058,10 @@ macro_rules! c18_gen {
             log_reset();
             let p1: [u8; $n] = kani::any();
             let p2: [u8; 3] = kani::any();
+            let allocs_before = crate::verif::allocv::native_allocs();
             g.update(&p1);
             g.update(&p2);
+            assert!(crate::verif::allocv::native_allocs() == allocs_before, "heap allocation during update");
             assert!(g.processed_len() == Some($n + 3));
             let c = g.clone();
             unsafe {
@@ -1073,6 +1075,7 @@ macro_rules! c18_gen {
             let (o, _c, _p, _s, _h, _k) = sym_options();
             let r = c.finalize_with_options(&o);
             let r2 = g.finalize();
+            assert!(crate::verif::allocv::native_allocs() == allocs_before, "heap allocation during generator operations");
             kani::cover!(r.is_ok());
             kani::cover!(r.is_err());
             core::mem::forget((r, r2));
